@@ -21,12 +21,12 @@ import (
 // the op id counter (the build passes -mem to simgen).
 
 type ctxOp struct {
-	client      int
-	kind        string // put | get | all  (request headers of the shared context)
-	key, val    string
-	ok          bool
-	snapshot    map[string]string
-	call, ret   int64
+	client    int
+	kind      string // put | get | all  (request headers of the shared context)
+	key, val  string
+	ok        bool
+	snapshot  map[string]string
+	call, ret int64
 }
 
 type ctxIn struct {
